@@ -4089,6 +4089,9 @@ class LoopNode(ActionSinkNode, ActionSourceNode):
             for transition in accept_state.all_transitions():
                 if transition.target in sub_dfa.accepting_states:
                     raise IllegalDFAStateConflictsError("Ambigious loop: should loop or continue matching", transition)
+        # Going round again is like joining the body to itself: a character must not both continue the end of the body and begin it anew
+        if not isinstance(sub_dfa.starting_state, DFProxyState):
+            sub_dfa.append_after(sub_dfa, check_only=True)
 
         # If there are error-handling transitions on the accept node, point them to the starting node as fallthrough (so that anything that _isn't_ getting matched by 
         # the last node gets forwarded to the start, looping). If there are no transitions on the final node, point everything to the start.
